@@ -294,6 +294,55 @@ theorem load_spells_detected_partial (E : Codec) (env : Env) (hsp : env.isSpace 
   rw [detect_header env file pre post name rest hbl hpre hne hn hr hex]
   exact load_spells_file_partial E env hsp hdig hdec name hE cat hv file contents hfile body tail hlines hb ht
 
+/-- **load_render_partial — end to end from `Spec.render`.**  For every spelled file `f` (a `CatalogSp` plus trailing lines that
+    `Codecs.open` drops) that is `Valid` — every line carries its only line feed, comments are written in the normal form —
+    and every charset `enc` that is ASCII-compatible for the tool and whose codec satisfies `CodecOk`: if the charset can encode
+    the file's text (`f.render E = some file`), then `polib.pofile(path, encoding=enc)` on those BYTES yields the catalog.
+    All hypotheses are about the spelling and the codec; none is about the file. -/
+theorem load_render_partial (E : Codec) (env : Env) (hsp : env.isSpace = pyIsSpace) (hdig : env.isDigit = pyIsDigit)
+    (hdec : env.decimal = pyDecimal) (enc : Bytes) (hE : CodecOk env enc E) (hcompat : env.asciiCompatible enc = true)
+    (f : FileSp) (hv : f.Valid E) (file : Bytes) (hrender : f.render E = some file) :
+    ∃ r, loadWith env enc file = .ok r ∧ r.header = f.cat.headerText ∧
+      r.entries.map Lemmas.PoCatalog.content = f.cat.entries.map EntrySp.entry := by
+  obtain ⟨hcat, htail, hlines, hnorm⟩ := hv
+  obtain ⟨pairs, h1, h2, h3⟩ := Lemmas.PoFile.encodeText_pairs E f.text file hrender
+  have hfile : decodeFile env enc file = .ok f.text := by
+    rw [h1, h2]; exact decode_file_of_codec E env enc hE hcompat pairs h3
+  refine load_spells_file_partial E env hsp hdig hdec enc hE f.cat hcat file f.text hfile f.cat.lines (f.tail.map TailSp.render)
+    (Lemmas.PoPre.physLines_flatten f.lines hlines) ?_ ?_
+  · exact List.map_congr_left (fun l hl => Lemmas.PoFile.normalise_of_not_atypical l (hnorm l hl)) |>.trans (List.map_id _)
+  · intro x hx
+    simp only [List.mem_map] at hx
+    obtain ⟨t, ht, rfl⟩ := hx
+    exact Lemmas.PoFile.tail_held env hsp t (htail t ht)
+
+/-- the same with the charset detected by polib from the file (`polib.pofile(path)`).  What is left as hypothesis about the bytes
+    is exactly the precondition of `detect_header_general`: the first byte line matching polib's pattern is the header's
+    `Content-Type:… charset=NAME` line (see `detect_first_match_refuted` for why it cannot be dropped: in a multi-byte charset
+    even the trail bytes of raw characters could spell the pattern earlier). -/
+theorem load_render_detected_partial (E : Codec) (env : Env) (hsp : env.isSpace = pyIsSpace) (hdig : env.isDigit = pyIsDigit)
+    (hdec : env.decimal = pyDecimal) (name : Bytes) (hE : CodecOk env name E) (hcompat : env.asciiCompatible name = true)
+    (f : FileSp) (hv : f.Valid E) (file : Bytes) (hrender : f.render E = some file)
+    (pre post : List Bytes) (a params rest : Bytes) (x : UInt8)
+    (hbl : byteLines file = pre ++ (a ++ (contentTypeLit ++ (x :: (params ++ (charsetLit ++ (name ++ rest)))))) :: post)
+    (hpre : ∀ l ∈ pre, detectLine l = none) (ha : (67 : UInt8) ∉ a) (hp : Lemmas.PoDetect.SpaceNotC params)
+    (hne : name ≠ []) (hn : ∀ b ∈ name, isCharsetByte b = true) (hr : ∀ b r, rest = b :: r → isCharsetByte b = false)
+    (hex : env.codecExists name = true) :
+    ∃ r, load env file = .ok r ∧ r.header = f.cat.headerText ∧
+      r.entries.map Lemmas.PoCatalog.content = f.cat.entries.map EntrySp.entry := by
+  unfold load
+  rw [Lemmas.PoDetect.detect_header_general env file pre post a params name rest x hbl hpre ha hp hne hn hr hex]
+  exact load_render_partial E env hsp hdig hdec name hE hcompat f hv file hrender
+
+/-- header forms: anything without a `C` before `Content-Type:`, one byte, parameters in which ` charset=` cannot start
+    (`text/plain;`, `text/html; x=y;`, …), then ` charset=NAME` -/
+theorem detect_header_general (env : Env) (file : Bytes) (pre post : List Bytes) (a params name rest : Bytes) (x : UInt8)
+    (hlines : byteLines file = pre ++ (a ++ (contentTypeLit ++ (x :: (params ++ (charsetLit ++ (name ++ rest)))))) :: post)
+    (hpre : ∀ l ∈ pre, detectLine l = none) (ha : (67 : UInt8) ∉ a) (hp : Lemmas.PoDetect.SpaceNotC params)
+    (hne : name ≠ []) (hn : ∀ b ∈ name, isCharsetByte b = true) (hr : ∀ b r, rest = b :: r → isCharsetByte b = false)
+    (hex : env.codecExists name = true) : detectEncoding env file = name :=
+  Lemmas.PoDetect.detect_header_general env file pre post a params name rest x hlines hpre ha hp hne hn hr hex
+
 /-- the trailing lines a file may have after its last message line without losing it (fix ed9c45c for the comment forms):
     every noise line, and every translator comment starting in the first column, is held back by `Codecs.open` -/
 theorem codecs_open_holds_trailing (env : Env) (hsp : env.isSpace = pyIsSpace) :
@@ -303,7 +352,7 @@ theorem codecs_open_holds_trailing (env : Env) (hsp : env.isSpace = pyIsSpace) :
   ⟨fun z hz => Lemmas.PoFile.noise_held env hsp z hz, fun rest hne h => Lemmas.PoFile.tcomment_held env rest h hne⟩
 
 /-- the physical lines of a file are its `\n`-terminated pieces: no other character ends a line (Debian #692283) -/
-theorem phys_lines (ls : List Text) (h : ∀ l ∈ ls, Lemmas.PoPre.IsLine l) : physLines ls.flatten = ls :=
+theorem phys_lines (ls : List Text) (h : ∀ l ∈ ls, IsLine l) : physLines ls.flatten = ls :=
   Lemmas.PoPre.physLines_flatten ls h
 
 /-- fix ed9c45c, the witness: the last message survives a trailing comment polib skips -/
@@ -318,23 +367,25 @@ theorem trailing_ignored_comment_witness :
 def sampleFile : Text :=
   "\n#hdr\n#. x\n#: a.c:12 b\n#, fuzzy, c-format\nmsgid \"a\"\nmsgstr \"\"\n#.\n\"b\\n\"\n# trailing\n#~| msgid \"z\"\n".toList
 
+theorem sampleCatalog_valid : sampleCatalog.Valid asciiCodec := by
+  refine ⟨?_, ?_, ?_, ?_, by simp [sampleCatalog], ?_, ?_⟩
+  · simp [sampleCatalog, Noise.Valid]; decide
+  · simp [sampleCatalog, HeaderLine.Valid, endsNonSpace, allSpace]; decide
+  · simp [sampleCatalog]
+  · intro e he
+    simp [sampleCatalog] at he; subst he
+    refine ⟨?_, ⟨Or.inl rfl, by simp [sampleMsg], ?_, ?_⟩⟩
+    · simp [CommentSp.Valid, blankChar, endsNonSpace, allSpace, refsValid, RefItem.Valid, Blank, FlagPiece.Valid, FlagItem, flagBody,
+        joinComma, FlagPiece.render]
+      decide
+    · simp [sampleMsg, StrSp.Valid, Seg.Valid, Blank, Choice.Valid, rawOk, okSeq]; decide
+    · simp [sampleMsg, StrSp.Valid, Seg.Valid, Blank, Choice.Valid, rawOk, okSeq, okAdj, Noise.Valid]; decide
+  · intro e he; simp [sampleCatalog] at he; subst he; simp [CommentSp.isTc]
+  · intro e he; simp [sampleCatalog] at he; subst he; rfl
+
 example : ∃ f, loadWith asciiEnv asciiName (sampleFile.map fun c => UInt8.ofNat c.toNat) = .ok f ∧ f.header = "hdr".toList ∧
     f.entries.map Lemmas.PoCatalog.content = sampleCatalog.entries.map EntrySp.entry := by
-  have hv : sampleCatalog.Valid asciiCodec := by
-    refine ⟨?_, ?_, ?_, ?_, by simp [sampleCatalog], ?_, ?_⟩
-    · simp [sampleCatalog, Noise.Valid]; decide
-    · simp [sampleCatalog, HeaderLine.Valid, endsNonSpace, allSpace]; decide
-    · simp [sampleCatalog]
-    · intro e he
-      simp [sampleCatalog] at he; subst he
-      refine ⟨?_, ⟨Or.inl rfl, by simp [sampleMsg], ?_, ?_⟩⟩
-      · simp [CommentSp.Valid, blankChar, endsNonSpace, allSpace, refsValid, RefItem.Valid, Blank, FlagPiece.Valid, FlagItem, flagBody,
-          joinComma, FlagPiece.render]
-        decide
-      · simp [sampleMsg, StrSp.Valid, Seg.Valid, Blank, Choice.Valid, rawOk, okSeq]; decide
-      · simp [sampleMsg, StrSp.Valid, Seg.Valid, Blank, Choice.Valid, rawOk, okSeq, okAdj, Noise.Valid]; decide
-    · intro e he; simp [sampleCatalog] at he; subst he; simp [CommentSp.isTc]
-    · intro e he; simp [sampleCatalog] at he; subst he; rfl
+  have hv := sampleCatalog_valid
   have hfile : decodeFile asciiEnv asciiName (sampleFile.map fun c => UInt8.ofNat c.toNat) = .ok sampleFile := by
     have : decodeAscii (sampleFile.map fun c => UInt8.ofNat c.toNat) = some sampleFile := by decide
     simp [decodeFile, asciiEnv, this]
@@ -352,6 +403,61 @@ theorem codecs_open_keeps_body (env : Env) (contents : Text) (b : List Text) (l 
     (tail : List Text) (ht : ∀ x ∈ tail, Lemmas.PoPre.Held env x) (hlines : physLines contents = b ++ l :: tail) :
     preprocess env contents = (b ++ [l]).map normalise :=
   Lemmas.PoPre.preprocess_body env contents b l hl tail ht hlines
+
+/-! ## history independence -/
+
+/-- **load_sequence_independent.**  Loading a list of files in one process is the list of the single loads: the result for a
+    file does not depend on the files loaded before it (nor on their charsets).  True of the model by construction — its loop
+    threads nothing but the results — which is exactly what a module-level cache in the loader would break; the tie is the
+    `po-load-sequence` stream and the sequence falsifier (files in different charsets sharing textually identical escaped
+    lines, every order, each order in its own process). -/
+theorem load_sequence_independent (env : Env) (files : List Bytes) : loadSeq env files = files.map (checkerLoad env) := by
+  unfold loadSeq
+  suffices h : ∀ acc : List (Except Err PoFile × Bool),
+      files.foldl (fun results file => results ++ [checkerLoad env file]) acc = acc ++ files.map (checkerLoad env) by
+    simpa using h []
+  induction files with
+  | nil => simp
+  | cons f rest ih => intro acc; simp [List.foldl_cons, ih]
+
+/-- whatever was loaded before, and in whatever order, the last file gets the result it gets alone -/
+theorem load_after_any_history (env : Env) (history : List Bytes) (file : Bytes) :
+    (loadSeq env (history ++ [file])).getLast? = some (checkerLoad env file) := by
+  rw [load_sequence_independent]; simp
+
+/-- non-vacuity: the same escaped line `\\xc4\\x85` in a file read as "two-byte" text and in a plain ASCII-declared file:
+    each file gets its own answer in both orders -/
+example :
+    let a := "msgid \"\\xc4\\x85\"\nmsgstr \"\"\n".toList.map fun c => UInt8.ofNat c.toNat
+    let b := "msgid \"x\"\nmsgstr \"\\xc4\\x85\"\n# c\n".toList.map fun c => UInt8.ofNat c.toNat
+    (loadSeq twoByteEnv [a, b]).map (·.2) = [false, false] ∧
+    loadSeq twoByteEnv [a, b] = (loadSeq twoByteEnv [b, a]).reverse := by
+  intro a b
+  rw [load_sequence_independent, load_sequence_independent]
+  exact ⟨by decide, rfl⟩
+
+/-- non-vacuity of `load_render_partial`: the sample catalog followed by two trailing lines, rendered in ASCII -/
+def sampleFileSp : FileSp :=
+  ⟨sampleCatalog, [.comment " trailing\n".toList, .noise (.ignoredPrev [] " msgid \"z\"".toList ['\n'])]⟩
+
+theorem sampleFileSp_valid : sampleFileSp.Valid asciiCodec := by
+  refine ⟨sampleCatalog_valid, ?_, ?_, ?_⟩
+  · intro t ht
+    simp [sampleFileSp] at ht
+    rcases ht with rfl | rfl
+    · refine ⟨by decide, ?_⟩
+      intro c r e; simp at e; exact Or.inl e.1.symm
+    · simp [TailSp.Valid, Noise.Valid, Blank]; decide
+  · have : ∀ l ∈ sampleFileSp.lines, Lemmas.PoPre.isLineB l = true := by decide
+    exact fun l hl => Lemmas.PoPre.isLine_of_isLineB l (this l hl)
+  · decide
+
+set_option maxRecDepth 8000 in
+example : ∃ file, sampleFileSp.render asciiCodec = some file ∧ ∃ r, loadWith asciiEnv asciiName file = .ok r ∧ r.header = "hdr".toList ∧
+    r.entries.map Lemmas.PoCatalog.content = sampleCatalog.entries.map EntrySp.entry := by
+  have hr : (sampleFileSp.render asciiCodec).isSome = true := by decide
+  obtain ⟨file, hfile⟩ := Option.isSome_iff_exists.mp hr
+  exact ⟨file, hfile, load_render_partial asciiCodec asciiEnv rfl rfl rfl asciiName (asciiCodecOk _) rfl sampleFileSp sampleFileSp_valid file hfile⟩
 
 /-- `translated()` as patched: not obsolete, not fuzzy, and `msgstr` or some plural form non-empty -/
 theorem translated_iff (e : Entry) :
